@@ -204,6 +204,7 @@ func TestC12L2(t *testing.T) {
 		executors := []string{users[1].Str}
 		l2 := henv.NewL2(henv.L2Options{Admin: admin, Executors: executors})
 		l2.FundModule(authtypes.FeeCollectorName, coinOf("stake", 1_000_000))
+		l2.FundModule(opchildtypes.ModuleName, coinOf("stake", 100000)) // the module authority can pay the authority-signed transfers
 		l2.Fund(users[0].Addr, coinOf("stake", 1000))
 		l2.Fund(users[4].Addr, coinOf("stake", 1000))
 		authority := l2.Authority
@@ -272,9 +273,20 @@ func TestC12L2(t *testing.T) {
 				log = append(log, fmt.Sprintf("executor-change plan -> executors %v", executors))
 				return
 			case "deposit":
-				msg := opchildtypes.NewMsgFinalizeTokenDeposit(signer, "l1from", users[5].Str, coinOf("l2/aa", 5), nextL1, 3, "uinit", nil)
+				dseq := nextL1
+				if nextL1 > 1 && rapid.IntRange(0, 2).Draw(rt, "staleseq") == 0 {
+					dseq = uint64(rapid.IntRange(1, int(nextL1-1)).Draw(rt, "dseq")) // an already processed sequence
+				}
+				msg := opchildtypes.NewMsgFinalizeTokenDeposit(signer, "l1from", users[5].Str, coinOf("l2/aa", 5), dseq, 3, "uinit", nil)
 				r := l2.Deliver(msg)
-				log = append(log, fmt.Sprintf("deposit by %s [executor=%v former=%v] -> %v", short(signer), isExec(signer), former, r.Err))
+				log = append(log, fmt.Sprintf("deposit(seq %d, next %d) by %s [executor=%v former=%v] -> %v", dseq, nextL1, short(signer), isExec(signer), former, r.Err))
+				if r.OK() && dseq < nextL1 {
+					// a no-op answer is a success of the message too: it needs the role all the same
+					if !isExec(signer) {
+						fail("deposit finalization of an already processed sequence succeeded for %s, which is not a bridge executor", signer)
+					}
+					break
+				}
 				if r.OK() != isExec(signer) {
 					fail("deposit finalization by %s (executor=%v): ok=%v err=%v", signer, isExec(signer), r.OK(), r.Err)
 				}
@@ -388,7 +400,7 @@ func TestC12L2(t *testing.T) {
 				rotated := false
 				var desc []string
 				for k := 0; k < n; k++ {
-					switch rapid.SampledFrom([]string{"params", "params-rotate", "spend", "spend-too-much", "send-by-admin", "send-by-other", "remove-unknown"}).Draw(rt, "inner") {
+					switch rapid.SampledFrom([]string{"params", "params-rotate", "spend", "spend-too-much", "send-by-admin", "send-by-other", "remove-unknown", "send-by-authority", "send-by-authority"}).Draw(rt, "inner") {
 					case "params":
 						inner = append(inner, opchildtypes.NewMsgUpdateParams(authority, mkParams(newAdmin, newExecs)))
 						desc = append(desc, "params")
@@ -408,6 +420,9 @@ func TestC12L2(t *testing.T) {
 							failPos = k
 						}
 						desc = append(desc, "spend-too-much")
+					case "send-by-authority":
+						inner = append(inner, banktypes.NewMsgSend(sdk.MustAccAddressFromBech32(authority), users[5].Addr, sdk.NewCoins(coinOf("stake", 1))))
+						desc = append(desc, "send-by-authority")
 					case "send-by-admin":
 						inner = append(inner, banktypes.NewMsgSend(sdk.MustAccAddressFromBech32(admin), users[5].Addr, sdk.NewCoins(coinOf("stake", 1))))
 						allAuthority = false
